@@ -15,7 +15,7 @@ SPEC = {
         "C19: the harness' reference resolver (harness/src/bin/c19/reference.rs), written from Maven's documented rules, is the oracle used to search for failing inputs on the implementation",
     ],
     "assumptions": [
-        "POM universes are acyclic (parents, imports, dependencies); the model recurses on fuel (number of documents + 1) and answers Err when it runs out, the real code has no recursion limiter",
+        "POM universes are acyclic (parents, imports, dependencies): the model recurses on fuel (number of documents + 1) and answers Err when it runs out; C19_fuel_suffices shows that in a universe passing the decidable rank check acyclic_check (coq/C19/Acyclic.v; generated universes pass it, stream acyclic-check) the fuel is irrelevant, C19_fuel_monotone that an Ok answer never depends on it. The real code has no recursion limiter: on a cyclic universe it only stops because the harness' Downloader gives up after a download budget (stream cyclic)",
         "supported subset of the property: literal versions, no property interpolation, ranges, exclusions or profiles; managed entries declared before imports; children not re-declaring a parent's dependency (streams violating the last two are compared with the model only)",
         "when an imported BOM and a parent both manage one artifact the documentation fixes no precedence; code, model and reference take the import (it is expanded in place, the parent's entries come after)",
         "round-trip theorems: coordinate fields free of ':' (and of ' @ ' for FoundDependency); the repository's name is not printed, parsing sets it to the url",
